@@ -207,14 +207,91 @@ Lemma words_at_last (ents : list cent) k e : last_ent ents k e -> words_at eqb e
 Proof. intros H. apply last_ent_iff in H. unfold words_at. rewrite H. reflexivity. Qed.
 
 (* ---- findDuplicates -------------------------------------------------------- *)
-Lemma counter_add_In k (m : list (K * nat)) x n :
-  In (x, n) (counter_add eqb k m) -> x = k \/ In x (map fst m).
+Definition kcount (k : K) (l : list K) : nat := length (filter (eqb k) l).
+
+Fixpoint cget (k : K) (m : list (K * nat)) : nat :=
+  match m with
+  | [] => 0
+  | (k', n) :: m' => if eqb k k' then n else cget k m'
+  end.
+
+Lemma eqb_sym_false a b : eqb a b = false -> eqb b a = false.
 Proof.
-  induction m as [|[k' c] m IH]; cbn.
-  - intros [H|[]]. inversion H. auto.
+  intros H. destruct (eqb b a) eqn:E; [|reflexivity].
+  apply eqb_eq in E. subst. rewrite (eqb_refl eqb eqb_eq) in H. discriminate.
+Qed.
+
+Lemma cget_counter_add x k m :
+  cget x (counter_add eqb k m) = cget x m + (if eqb x k then 1 else 0).
+Proof.
+  induction m as [|[k' n] m IH]; cbn.
+  - destruct (eqb x k); reflexivity.
   - destruct (eqb k k') eqn:E; cbn.
-    + intros [H|H]; [inversion H; auto|]. right; right. apply in_map_iff. exists (x, n). auto.
-    + intros [H|H]; [inversion H; auto|]. destruct (IH H); auto.
+    + apply eqb_eq in E. subst k'. destruct (eqb x k); lia.
+    + destruct (eqb x k') eqn:E'; [|exact IH].
+      apply eqb_eq in E'. subst k'. rewrite (eqb_sym_false _ _ E). lia.
+Qed.
+
+Lemma keys_counter_add k (m : list (K * nat)) :
+  map fst (counter_add eqb k m) = if mem k (map fst m) then map fst m else map fst m ++ [k].
+Proof.
+  induction m as [|[k' n] m IH]; cbn; [reflexivity|].
+  destruct (eqb k k'); cbn; [reflexivity|]. rewrite IH.
+  destruct (mem k (map fst m)); reflexivity.
+Qed.
+
+Lemma counter_fold l : forall m,
+  map fst (fold_left (fun m k => counter_add eqb k m) l m) = addnew (map fst m) l /\
+  forall x, cget x (fold_left (fun m k => counter_add eqb k m) l m) = cget x m + kcount x l.
+Proof.
+  induction l as [|k l IH]; intros m; cbn.
+  - split; [reflexivity|]. intros x. unfold kcount. cbn. lia.
+  - destruct (IH (counter_add eqb k m)) as [IH1 IH2]. split.
+    + rewrite IH1, keys_counter_add. reflexivity.
+    + intros x. rewrite IH2, cget_counter_add. unfold kcount. cbn.
+      destruct (eqb x k); cbn; lia.
+Qed.
+
+Lemma cget_In (m : list (K * nat)) : NoDup (map fst m) ->
+  forall k n, In (k, n) m <-> In k (map fst m) /\ cget k m = n.
+Proof.
+  induction m as [|[k' c] m IH]; cbn; intros Hnd k n.
+  - tauto.
+  - inversion Hnd as [|? ? Hk' Hm]; subst. destruct (eqb k k') eqn:E.
+    + apply eqb_eq in E. subst k'. split.
+      * intros [H|H]; [inversion H; auto|].
+        exfalso. apply Hk'. apply in_map_iff. exists (k, n). auto.
+      * intros [_ ->]. auto.
+    + rewrite (IH Hm). split.
+      * intros [H|H]; [inversion H; subst; rewrite (eqb_refl eqb eqb_eq) in E; discriminate|tauto].
+      * intros [[H|H] Hc]; [subst; rewrite (eqb_refl eqb eqb_eq) in E; discriminate|tauto].
+Qed.
+
+Lemma kcount_pos k l : 0 < kcount k l <-> In k l.
+Proof.
+  unfold kcount. induction l as [|x l IH]; cbn; [split; [lia|tauto]|].
+  destruct (eqb k x) eqn:E; cbn.
+  - apply eqb_eq in E. subst. split; [auto|lia].
+  - rewrite IH. split; [auto|]. intros [H|H]; [|exact H].
+    subst. rewrite (eqb_refl eqb eqb_eq) in E. discriminate.
+Qed.
+
+(* findDuplicates yields each key occurring more than once, once, with its count *)
+Theorem find_duplicates_spec (ents : list cent) :
+  NoDup (map fst (find_duplicates eqb ents)) /\
+  forall k n, In (k, n) (find_duplicates eqb ents) <->
+              n = kcount k (map c_key ents) /\ 1 < n.
+Proof.
+  unfold find_duplicates, counter.
+  destruct (counter_fold (map c_key ents) []) as [Hk Hc]. cbn in Hk, Hc.
+  set (m := fold_left _ _ _) in *.
+  assert (Hnd : NoDup (map fst m)) by (rewrite Hk; apply addnew_NoDup; constructor).
+  split; [apply NoDup_map_filter; exact Hnd|].
+  intros k n. rewrite filter_In, (cget_In m Hnd), Hk, Hc. cbn [snd].
+  rewrite addnew_In. split.
+  - intros [[_ <-] Hn]. split; [reflexivity|]. apply Nat.ltb_lt. exact Hn.
+  - intros [-> Hn]. split; [split; [|reflexivity]|apply Nat.ltb_lt; exact Hn].
+    right. apply kcount_pos. lia.
 Qed.
 
 (* ---- (2) run adds up the effects ------------------------------------------ *)
@@ -735,6 +812,49 @@ Proof.
       * intros _. reflexivity.
 Qed.
 
+Lemma iteration_no_dup x d : iteration x = Ok d -> forall b k n, ~ In (NDup b k n) (a_notes d).
+Proof.
+  destruct x as [lab k0]. unfold iteration, Compare.iteration. rewrite !getitem_lastw.
+  assert (Hn : forall b k n (fs : list finding),
+             ~ In (@NDup K b k n) (map (fun f => NCheck (f_error f) (f_msg f)) fs)).
+  { intros b k n fs H. apply in_map_iff in H. destruct H as (f & Hf & _). discriminate. }
+  destruct lab; cbn [bind].
+  - destruct (lastw k0 ref) as [a|]; cbn [bind]; [|discriminate].
+    destruct (lastw k0 l10n) as [b|]; cbn [bind]; [|discriminate].
+    destruct (keyname k0); cbn [bind].
+    + intros H; inversion H; subst; cbn. intros; apply Hn.
+    + destruct (c_junk a); cbn [bind]; [discriminate|].
+      destruct (equals eqb veq a b); cbn [bind]; intros H; inversion H; subst; cbn;
+        intros; apply Hn.
+  - destruct (lastw k0 ref) as [a|]; cbn [bind]; [|discriminate].
+    destruct (c_junk a); [|destruct (flt k0)]; intros H; inversion H; subst; cbn;
+      intros b k n [Hf|[]]; discriminate.
+  - destruct (lastw k0 l10n) as [b|]; cbn [bind]; [|discriminate].
+    destruct (c_junk b); [|destruct (flt k0)]; intros H; inversion H; subst; cbn;
+      intros b' k n [Hf|[]]; discriminate.
+Qed.
+
+(* the duplicate warnings (reference) and errors (localization) *)
+Theorem compare_duplicates r : compare = Ok r -> forall k n,
+  (In (NDup false k n) (a_notes r) <-> n = kcount k kr /\ 1 < n) /\
+  (In (NDup true k n) (a_notes r) <-> n = kcount k kl /\ 1 < n).
+Proof.
+  intros H k n. destruct (notes_unfold r H) as (ds & HF & ->).
+  assert (Hno : forall b, ~ In (NDup b k n) (concat (map (@a_notes K) ds))).
+  { intros b Hin. apply in_concat in Hin. destruct Hin as (ns & Hns & Hin).
+    apply in_map_iff in Hns. destruct Hns as (d & <- & Hd).
+    clear -HF Hd Hin eqb_eq. induction HF as [|x d' xs ds Hxd _ IH]; [destruct Hd|].
+    destruct Hd as [->|Hd]; [exact (iteration_no_dup x d Hxd b k n Hin)|exact (IH Hd)]. }
+  destruct (find_duplicates_spec ref) as [_ Hr]. destruct (find_duplicates_spec l10n) as [_ Hl].
+  unfold dup_notes. rewrite !in_app_iff, !in_map_iff. split; split.
+  - intros [[([k' n'] & E & Hin)|([k' n'] & E & _)]|Hin]; [|discriminate|destruct (Hno _ Hin)].
+    cbn in E. inversion E; subst. apply Hr. exact Hin.
+  - intros Hk. left; left. exists (k, n). split; [reflexivity|]. apply Hr. exact Hk.
+  - intros [[([k' n'] & E & _)|([k' n'] & E & Hin)]|Hin]; [discriminate| |destruct (Hno _ Hin)].
+    cbn in E. inversion E; subst. apply Hl. exact Hin.
+  - intros Hk. left; right. exists (k, n). split; [reflexivity|]. apply Hl. exact Hk.
+Qed.
+
 (* the only way to raise: Junk.equals on a reference Junk whose generated key is
    also a key of the localization *)
 Theorem compare_no_raise :
@@ -791,7 +911,7 @@ Proof.
   assert (HN : NoDup N) by (apply NoDup_map_filter; exact Hnd).
   assert (HP : Permutation M N).
   { apply NoDup_Permutation; [exact HM|exact HN|]. intros k. rewrite HIn. unfold N.
-    rewrite in_map_iff. split.
+    rewrite (in_map_iff c_key (filter nonjunk ref)). split.
     - intros (_ & _ & _ & e & He & Hj). exists e.
       destruct He as (pre & post & -> & Hk & _). split; [exact Hk|].
       apply filter_In. split; [apply in_or_app; right; left; reflexivity|].
@@ -804,7 +924,7 @@ Proof.
   - rewrite (Permutation_length HP). unfold N. rewrite map_length. reflexivity.
   - rewrite (list_sum_perm _ _ (Permutation_map (words_at eqb ref) HP)). unfold N.
     rewrite map_map. f_equal. apply map_ext_in. intros e He. apply filter_In in He.
-    apply words_at_last. apply NoDup_keys_last; tauto.
+    symmetry. apply words_at_last. apply NoDup_keys_last; tauto.
 Qed.
 
 End Proofs.
